@@ -68,9 +68,28 @@ var BoundaryMetaShapes = []map[string]string{
 	{strings.Repeat("\u00e9", 127) + "k": strings.Repeat("\u00e9", 32767) + "v"},
 }
 
+// Many-key shapes (selected by ManyKeysA / ManyKeysB): each fits the format's limit of 65535 entries, their union does not.
+const (
+	ManyKeysA = 1000001
+	ManyKeysB = 1000002
+)
+
+func manyKeys(prefix string, n int) map[string]string {
+	m := make(map[string]string, n)
+	for i := 0; i < n; i++ {
+		m[fmt.Sprintf("%s%05d", prefix, i)] = "x"
+	}
+	return m
+}
+
 // Meta returns a fresh copy of shape i (the code under test mutates maps it is given).
 func Meta(i int) map[string]string {
 	var m map[string]string
+	if i == ManyKeysA {
+		return manyKeys("a", 40000)
+	} else if i == ManyKeysB {
+		return manyKeys("b", 30000)
+	}
 	if i >= len(MetaShapes) {
 		m = BoundaryMetaShapes[(i-len(MetaShapes))%len(BoundaryMetaShapes)]
 	} else {
